@@ -61,6 +61,8 @@ def holds(e, asg, domains):
         return operand_value(e[2], asg) in operand_value(e[1], asg)
     if k == "pred":
         return bool(plain_bigger(operand_value(e[1], asg), operand_value(e[2], asg)))
+    if k == "truth":        # a bare operand written as a condition: its truth value
+        return bool(operand_value(e[1], asg))
     if k == "eqsub":      # operand == an(entity(u, cond)): the operand is one of the u that satisfy cond (under the outer assignment)
         return any(holds(e[3], {**asg, e[2]: v}, domains) and operand_value(e[1], asg) == v for v in domains[e[2]])
     if k == "and":
@@ -92,6 +94,8 @@ def free_vars(e):
         return operand_vars(e[2]) | operand_vars(e[3])
     if k in ("contains", "pred"):
         return operand_vars(e[1]) | operand_vars(e[2])
+    if k == "truth":
+        return operand_vars(e[1])
     if k == "eqsub":
         return operand_vars(e[1]) | (free_vars(e[3]) - {e[2]})
     if k in ("and", "or"):
@@ -123,6 +127,8 @@ def skeleton(e):
         kind = {"cmp": "cmp", "contains": "in", "pred": "pred"}[k]
         ints = any(v.startswith("n") for v in vs)
         return f"{kind}[{','.join(vs)}]" + ("#int" if ints else "")
+    if k == "truth":
+        return f"truth[{','.join(sorted(operand_vars(e[1])))}]"
     if k == "eqsub":
         return f"eq-subquery[{','.join(sorted(operand_vars(e[1])))}]({e[2]};{skeleton(e[3])})"
     if k in ("and", "or"):
@@ -196,6 +202,8 @@ class Env:
             return contains(self.operand(e[1]), self.operand(e[2]))
         if k == "pred":
             return bigger(self.operand(e[1]), self.operand(e[2]))
+        if k == "truth":
+            return self.operand(e[1])
         if k == "eqsub":
             return self.operand(e[1]) == an(entity(self.vars[e[2]], self.build(e[3])))
         if k == "and":
